@@ -48,7 +48,7 @@ pub fn lookup(id: &str) -> Option<Meta> {
             level: "fault_enumeration",
             quick_runs: 1_200_000,
             thorough_runs: 4_000_000,
-            max_len: 512,
+            max_len: 150_000,
             rule: "one evaluation = one history of coloured writes: (surface in {ansi::write_colored, WinconStream for dyn Write / dyn Write+Send / dyn Write+Send+Sync / Box<dyn Write> / &mut dyn Write / Vec<u8> / File}, data, base colour pair rotated per call over all 17x17 pairs, client write loop, offset-keyed fault script over the framed output so that any of the up to four inner writes of a call can be shortened or failed); each call's output is split existentially into <codes><accepted data><reset> and the codes are interpreted by an independent 16-colour SGR interpreter. The thorough tier adds, for one seeded workload in 256, all 17x17 colour pairs x (no fault + every fault kind at every output offset). Non-trivial = a fault fired or the history has at least two calls; distinct = distinct signatures of such histories",
             assumptions: &[
                 "an Interrupted raised while writing the colour codes or the reset is retried by write_all and is not an error; on the data write it may surface",
